@@ -192,8 +192,7 @@ def delivery(chk, prop):
                 inp, old = res['input'], list(res['old'])
 
                 def same(a, b):
-                    a, b = ex_.materialize(a) if isinstance(a, Lazy) and False else a, b
-                    return a is b
+                    return common.same_value(ex_, a, b)
                 want = [inp]
                 if is_fin:
                     want += old + ([inp] if kept else [])
@@ -265,6 +264,20 @@ def confirm_delivery(chk, bad, prop):
                     chk.replay_files.append(path)
                 else:
                     os.remove(path)
+    # what is re-emitted is the very event that went through before (a skipped BACKGROUND step stays a background step)
+    path = os.path.join(d, '%s-repeat-same-events.script' % prop)
+    lines = ['mode events', 'wrapper repeat_skipped', 'bg 1', 'own 1', 'ev bg 0 started r=-', 'ev bg 0 skipped r=-', 'ev run_finished']
+    res, out = replay.run_script('\n'.join(lines) + '\n', path)
+    chk.replays += 1
+    logs = [ln[4:] for ln in out.splitlines() if ln.startswith('LOG ')]
+    if res is not None and 'finished' in logs:
+        k = logs.index('finished')
+        first, again = [x for x in logs[:k] if ':skipped' in x], logs[k + 1:]
+        if first != again:
+            deviations.append((path, again, first))
+            chk.replay_files.append(path)
+        else:
+            os.remove(path)
     # a custom filter selecting everything: the run-level events (run-Finished itself) are re-emitted too
     for n in (0, 1):
         path = os.path.join(d, '%s-repeat-all-%d.script' % (prop, n))
